@@ -15,6 +15,7 @@ import FuraxProofs.Props.C12
 import FuraxProofs.Props.C13
 import FuraxProofs.Props.C14
 import FuraxProofs.Props.C15
+import FuraxProofs.Sem.AdjointList
 namespace Furax.C03
 open Furax Op
 
@@ -71,6 +72,40 @@ theorem transpose_is_adjoint {V R : Type} [Add R] [Zero R] (C : AdjCore V R) (hL
     (hf : Frag o) (hok : StructOK o) (hwt : o.WTAll) (hw : o.WFT) (h : transposeOp o = .ok t) :
     C.IsAdjointOn o t :=
   AdjCore.transpose_adjoint C hL o t hf hok hwt hw h
+
+/-! ### the closed statement, in the faithful list denotation (FuraxProofs/Sem) -/
+
+/-- **`⟨A x, y⟩ = ⟨x, A.T y⟩` with no law assumed**: for every valid expression `A` — leaves of every interpreted
+class (identity, scalar, diagonal, index, pack, move-axis, ravel/reshape, rotation, half-wave plate, polariser),
+the transpose wrappers, lazy inverses, compositions and sums of any length, block row / diagonal / column — the
+operator `A.T` that `transposeOp` builds (the form compared with furax by the correspondence check) computes the
+adjoint of what `A` computes, for the standard inner product on vectors of the declared sizes.
+What remains assumed is only about the leaf classes the denotation does not interpret (`EnvAdj E`: the maps standing
+for dense einsum / Toeplitz / observation-matrix / opaque leaves come with their adjoints, Toeplitz ones are
+self-adjoint — C09 and C14 prove this for the two kernels that are modelled); dense leaves are excluded because
+`op.T` builds a new dense leaf the environment cannot know (C14 covers them), and `DiagonalInverseOperator` must
+wrap a diagonal leaf (which is all the Python class accepts). -/
+theorem transpose_is_adjoint_closed (E : ListSem.Env) (hE : ListSem.EnvAdj E) (o t : Op) (hv : ListSem.ValidT o)
+    (hw : o.WFT) (h : transposeOp o = .ok t) :
+    ∀ x y : List ℝ, x.length = (Op.inS o).size → y.length = (Op.outS o).size →
+      ListSem.dot (ListSem.den E o x) y = ListSem.dot x (ListSem.den E t y) :=
+  ListSem.transpose_is_adjoint_closed E hE o t hv hw h
+
+/-- the two halves: `denT` (what the model says `A.T.mv` computes) is the adjoint of `den`, for every valid
+expression, lazy inverses included (an inverse of `A` exists iff one of `Aᵀ` does, and then they are adjoint) … -/
+theorem den_adjoint_closed (E : ListSem.Env) (hE : ListSem.EnvAdj E) (o : Op) (hv : ListSem.Valid o) :
+    ∀ x y : List ℝ, x.length = (Op.inS o).size → y.length = (Op.outS o).size →
+      ListSem.dot (ListSem.den E o x) y = ListSem.dot x (ListSem.denT E o y) :=
+  ListSem.den_adjoint E hE o hv
+
+/-- … and the form `transposeOp` builds denotes `denT` -/
+theorem transposeOp_denotes_adjoint (E : ListSem.Env) (hE : ListSem.EnvAdj E) (o t : Op) (hv : ListSem.ValidT o)
+    (hw : o.WFT) (h : transposeOp o = .ok t) :
+    ∀ y : List ℝ, y.length = (Op.outS o).size → ListSem.den E t y = ListSem.denT E o y :=
+  ListSem.transposeOp_den E hE o t hv hw h
+
+/-- the hypothesis on the environment is satisfiable: every family of matrices (symmetric for Toeplitz leaves) -/
+theorem env_adjoint_inhabited : ListSem.EnvAdj ListSem.idEnv := ListSem.idEnv_adj
 
 /-- the framework is inhabited -/
 theorem framework_inhabited : Nonempty (AdjCore Unit Nat) := ⟨AdjCore.unitModel⟩
